@@ -29,6 +29,8 @@ structure SSem (K D R : Type) extends Sem K D R where
   dMinZero : D → Bool
   /-- a sample of entry `k` of a block-diagonal operator on multi-domain `dm`, placed into the multi-field -/
   blockRow : Nat → Nat → R → R
+  /-- sub-domain ids of a multi-domain id in key order (`[]` for a plain domain) -/
+  multiKeys : Nat → List Nat
 
 variable {K D R : Type}
 
@@ -46,7 +48,12 @@ def sampler (S : SSem K D R) : Op K D → Bool → Except String (List (R × Nat
       -- ScalingOperator.draw_sample: dtype check, then _get_fct
       if dt == 0 then .error "RuntimeError" else
       if !S.kIsReal c || S.kNeg c || (S.keq c S.kzero && fi) then .error "ValueError" else
-      .ok [(S.smul (if fi then S.kinv (S.ksqrt c) else S.ksqrt c) (S.one d), dt)]
+      let f := if fi then S.kinv (S.ksqrt c) else S.ksqrt c
+      match S.multiKeys d with
+      | [] => .ok [(S.smul f (S.one d), dt)]
+      | subs =>
+        -- MultiField.from_random draws one field per key, in key order
+        .ok ((List.range subs.length).zip subs |>.map fun (k, sd) => (S.blockRow d k (S.smul f (S.one sd)), dt))
   | .diag dm d t dt, fi =>
       -- DiagonalOperator.draw_sample / process_sample: from_inverse2 = from_inverse ^ (self._trafo >= 2)
       if dt == 0 then .error "RuntimeError" else
